@@ -46,11 +46,12 @@ func c17GKey(s *c17Spec, g map[string][][]string) string {
 // one per-rule probe: an enforcer with the same model text, the same grouping rules in the
 // same order, the same registered functions, and ONLY rule i in p.  Its effect expression is
 // chosen by the rule's own effect so that "matched" is observable without touching the rule:
-//   eft allow (or no eft column): allow-override   -> matched  <=> decision true
-//   eft deny:                     deny-override    -> matched  <=> decision false
-//   any other eft:                allow-override   -> only "evaluation fails" is observable; the
-//                                 slot is reported unmatched, which is the same for all five
-//                                 effects (an indeterminate rule never takes part in a decision)
+//
+//	eft allow (or no eft column): allow-override   -> matched  <=> decision true
+//	eft deny:                     deny-override    -> matched  <=> decision false
+//	any other eft:                allow-override   -> only "evaluation fails" is observable; the
+//	                              slot is reported unmatched, which is the same for all five
+//	                              effects (an indeterminate rule never takes part in a decision)
 type c17Probe struct {
 	e      *casbin.Enforcer
 	letter byte // a d i
@@ -204,14 +205,15 @@ func c17Correspond(c *Ctx, s *c17Spec, pb *c17Prober, e *casbin.Enforcer, reqs [
 // ---------------------------------------------------------------------------------------
 
 type c17Run struct {
-	c     *Ctx
-	s     *c17Spec
-	pb    *c17Prober
-	e     *casbin.Enforcer
-	reqs  [][]interface{}
-	D     []byte
-	dirty bool     // pattern role manager after a link removal: not a function of the link set (F05/F06)
-	hist  []string // operations since the last fresh build, for the replay
+	c         *Ctx
+	s         *c17Spec
+	pb        *c17Prober
+	e         *casbin.Enforcer
+	reqs      [][]interface{}
+	D         []byte
+	corrEvery int      // correspondence on one in corrEvery permuted / reloaded states
+	dirty     bool     // pattern role manager after a link removal: not a function of the link set (F05/F06)
+	hist      []string // operations since the last fresh build, for the replay
 }
 
 func (r *c17Run) orderFree() bool { return r.s.ef == "ao" || r.s.ef == "do" || r.s.ef == "ad" }
@@ -743,7 +745,7 @@ func (r *c17Run) step(rng *rand.Rand) {
 			r.same(D2, "the same rules and links loaded in another order changed an error-free decision", false)
 			r.D, r.hist = D2, h2
 		}
-		if rng.Intn(3) == 0 {
+		if rng.Intn(r.corrEvery) == 0 {
 			c17Correspond(c, s, r.pb, r.e, r.reqs, "perm")
 		}
 	case op < 94: // ---- reload the same enforcer from an adapter that lists another order
@@ -773,7 +775,7 @@ func (r *c17Run) step(rng *rand.Rand) {
 		}
 		r.dirty = false
 		r.D = D2
-		if rng.Intn(3) == 0 {
+		if rng.Intn(r.corrEvery) == 0 {
 			c17Correspond(c, s, r.pb, r.e, r.reqs, "reload")
 		}
 	default: // ---- back to the shipped / generated base policy
@@ -784,7 +786,10 @@ func (r *c17Run) step(rng *rand.Rand) {
 
 func c17RunSpec(c *Ctx, s *c17Spec, steps int, maxReq int) {
 	pb := c17NewProber(s)
-	r := &c17Run{c: c, s: s, pb: pb}
+	r := &c17Run{c: c, s: s, pb: pb, corrEvery: 3}
+	if c.Thorough() {
+		r.corrEvery = 12
+	}
 	// requests are fixed for the whole run: values of the base policy and links, the spec's
 	// own values, and a value that occurs nowhere
 	r.reqs = s.requests(c.Rng, s.p, s.g, maxReq)
@@ -794,7 +799,21 @@ func c17RunSpec(c *Ctx, s *c17Spec, steps int, maxReq int) {
 		c.Count("base:" + s.ef + ":" + string(d))
 	}
 	for i := 0; i < steps; i++ {
-		r.step(c.Rng)
+		func() {
+			// a panic escaping a management call of the implementation is a violation with the
+			// operation history as replay, not a crash of the harness
+			defer func() {
+				if x := recover(); x != nil {
+					msg := fmt.Sprint(x)
+					if strings.HasPrefix(msg, "build ") || strings.HasPrefix(msg, "probe ") || strings.HasPrefix(msg, "blank ") {
+						panic(x)
+					}
+					r.fail("the implementation panicked during a policy operation", "panic="+Q(msg))
+					r.rebuild(s.p, s.g)
+				}
+			}()
+			r.step(c.Rng)
+		}()
 		if len(r.hist) > 40 { // keep replays short
 			r.rebuild(c17GetP(r.e), c17GetG(s, r.e))
 		}
@@ -831,7 +850,7 @@ func init() {
 		if c.Thorough() {
 			steps, genN, genSteps, maxReq = 1000, 2500, 80, 120
 		}
-		c.Rule = fmt.Sprintf("Specs: every examples/*_model.conf that has a policy file and string requests (%d pairs, skipped ones in the notes) and %d generated models (ACL, RBAC, RBAC with domains / resource roles / pattern role managers, keyMatch, keyMatch2, regexMatch, ipMatch with unparsable addresses, globMatch with a bad pattern, negated matchers, a matcher without policy fields; allow-override with and without eft column, deny-override, allow-and-deny, priority; 0-6 rules, 0-5 links per role definition). Requests: cross product (sampled down to %d) of, per request field, the values of the same-named policy column, the names in the role links when the field is an argument of g(), the example's test values, and one value occurring nowhere. CORRESPONDENCE: for the base state, for a third of the permuted / reloaded states and for the final state, every request is enforced on the real enforcer and, independently, on one single-rule probe enforcer per stored rule (same model text, same links, only rule i; allow-override probe for allow rules, deny-override probe for deny rules, indeterminate rules count as unmatched) and on a rule-free probe (policy-free branch); the extracted Meta.decide_vec folds the measured vector (stored order, lazy evaluation, errors) and must print the real decision and error flag. METAMORPHIC: %d random transformations per example (%d per generated model) of the current state: add rule (+remove), remove rule (+add back), refused duplicates, add link (+remove), remove link (+add back), same rules and links in another order through a fresh enforcer, LoadPolicy from an adapter listing another order, reset; after each one all decisions are compared under the relation the theorems give (allow-override: never revoke / never grant under the empty-policy guard, also for links when the matcher is negation-free; deny-override and allow-and-deny: a deny rule never grants; non-priority effects: permutation / reload / remove+add-back keep error-free decisions; add+remove and duplicates keep every outcome and the exact rule list; AddPolicy appends, RemovePolicy cuts out). Priority and subjectPriority models take part in correspondence, add/remove neutrality and duplicates only (order matters there by design). Non-trivial = a vector with a matched or failing slot; distinct by (spec, effect, vector, blank).", len(c17Examples), genN, maxReq, steps, genSteps)
+		c.Rule = fmt.Sprintf("Specs: every examples/*_model.conf that has a policy file and string requests (%d pairs, skipped ones in the notes) and %d generated models (ACL, RBAC, RBAC with domains / resource roles / pattern role managers, keyMatch, keyMatch2, regexMatch, ipMatch with unparsable addresses, globMatch with a bad pattern, negated matchers, a matcher without policy fields; allow-override with and without eft column, deny-override, allow-and-deny, priority; 0-6 rules, 0-5 links per role definition). Requests: cross product (sampled down to %d) of, per request field, the values of the same-named policy column, the names in the role links when the field is an argument of g(), the example's test values, and one value occurring nowhere. CORRESPONDENCE: for the base state, for a third (thorough: a twelfth) of the permuted / reloaded states and for the final state, every request is enforced on the real enforcer and, independently, on one single-rule probe enforcer per stored rule (same model text, same links, only rule i; allow-override probe for allow rules, deny-override probe for deny rules, indeterminate rules count as unmatched) and on a rule-free probe (policy-free branch); the extracted Meta.decide_vec folds the measured vector (stored order, lazy evaluation, errors) and must print the real decision and error flag. METAMORPHIC: %d random transformations per example (%d per generated model) of the current state: add rule (+remove), remove rule (+add back), refused duplicates, add link (+remove), remove link (+add back), same rules and links in another order through a fresh enforcer, LoadPolicy from an adapter listing another order, reset; after each one all decisions are compared under the relation the theorems give (allow-override: never revoke / never grant under the empty-policy guard, also for links when the matcher is negation-free; deny-override and allow-and-deny: a deny rule never grants; non-priority effects: permutation / reload / remove+add-back keep error-free decisions; add+remove and duplicates keep every outcome and the exact rule list; AddPolicy appends, RemovePolicy cuts out). Priority and subjectPriority models take part in correspondence, add/remove neutrality and duplicates only (order matters there by design). Non-trivial = a vector with a matched or failing slot; distinct by (spec, effect, vector, blank).", len(c17Examples), genN, maxReq, steps, genSteps)
 		var qualifying, negated []string
 		for _, ex := range c17Examples {
 			s, err := c17LoadExample(ex)
